@@ -287,8 +287,8 @@ def squash_rule(ctx, res, rule):
         raise A.Cannot("get on an unknown list / index")
     iter_models = {"std::iter::Peekable::next_if": _next_if, "std::iter::Peekable::peek": _peek, "std::iter::Iterator::next": _next,
                    "core::slice::get": _get, "core::slice::<impl [T]>::get": _get, "std::vec::Vec::get": _get}
-    rows = bad = 0
-    first_bad = None
+    rows = bad = order_bad = 0
+    first_bad = first_order = None
     for rs, re_, ps, pe in itertools.product(range(5), repeat=4):
         if not (rs < re_ and ps < pe):
             continue
@@ -319,6 +319,12 @@ def squash_rule(ctx, res, rule):
         o = outs[0]
         consumed = o["exit"] in ("fall", "continue")
         listed = len(merged.items) == 1
+        # regions of nested elements are nested or disjoint: for those, a pending range is taken up in front of this ready range
+        # exactly when it begins before the ready range ends (otherwise it would be listed out of source order / never squashed)
+        laminar = (rs <= ps and pe <= re_) or (ps <= rs and re_ <= pe) or pe <= rs or re_ <= ps
+        if laminar and consumed != (ps < re_):
+            order_bad += 1
+            first_order = first_order or ((rs, re_), (ps, pe), consumed)
         if not consumed:
             continue                      # pending lies behind the ready range: handled in a later iteration
         inside = rs <= ps and pe <= re_          # wholly inside, including a pending range that ends exactly where the ready one ends
@@ -326,6 +332,18 @@ def squash_rule(ctx, res, rule):
             bad += 1
             first_bad = first_bad or ((rs, re_), (ps, pe), listed)
     res.extra.setdefault("ordering_rows", {})[fn] = rows
+    if order_bad:
+        r_, p_, c_ = first_order
+        res.add(Finding(rule, fn, "taken-in-order", "for ready %s and pending %s the pending range is %s: a pending range is taken up in front of a ready range exactly when it begins "
+                        "before that range ends (source order; %d of %d orderings)" % (r_, p_, "taken up in front of it" if c_ else "left for later", order_bad, rows), loc=loc))
+    else:
+        res.holds(rule, fn, "taken-in-order", "nested / disjoint orderings: taken up iff it begins before the ready range ends")
+    if cur_name is not None:
+        inits = [T.lit_value(s_["init"]) for s_ in T.nodes(b["tree"], "let") if s_["pat"]["p"] == "bind" and s_["pat"]["name"] == cur_name and s_.get("init") is not None]
+        if inits == [0]:
+            res.holds(rule, fn, "cursor-starts-at-0")
+        else:
+            res.add(Finding(rule, fn, "cursor-starts-at-0", "the cursor into the pending list starts at %s, not at 0: pending regions in front of it are never listed" % inits, loc=loc))
     if bad:
         r_, p_, l_ = first_bad
         res.add(Finding(rule, fn, "squash-soundness", "for ready %s and pending %s (endpoint ordering) the pending range is %s: a Pending region is omitted exactly when it lies "
